@@ -8,15 +8,6 @@
 pub open spec fn continues<'i>(r: core::result::Result<Event<'i>, Error>) -> bool {
     (r is Ok && !(r matches Ok(Event::Eof))) || (r matches Err(Error::IllFormed(_)))
 }
-/// representation invariant of the event types: the name is a prefix of the content
-spec fn ev_wf<'i>(ev: Event<'i>) -> bool {
-    match ev {
-        Event::Start(e) | Event::Empty(e) => e.name_len <= e.buf@.len(),
-        Event::Decl(e) => e.content.name_len <= e.content.buf@.len(),
-        Event::PI(e) => e.content.name_len <= e.content.buf@.len(),
-        _ => true,
-    }
-}
 /// effect of one returned event on the abstract stack of open element names (C04, C05, C12):
 /// a Start pushes its name, an End pops (and, when names are checked, carries the popped name)
 spec fn stack_effect<'i>(pre: ReaderState, post: ReaderState, r: core::result::Result<Event<'i>, Error>) -> bool {
